@@ -12,7 +12,7 @@ LEAN_MODULES = ["MpirProofs.Props.C01_fftx"]
 THEOREMS = ["Mpir.FftX.fft_radix2_bitrev_dft", "Mpir.FftX.revbin_eq_rev", "Mpir.FftX.ifft_radix2_of_transform", "Mpir.FftX.ifft_fft_radix2",
             "Mpir.FftX.fft_trunc1_prefix", "Mpir.FftX.fft_trunc_prefix", "Mpir.FftX.ifft_trunc1_recovers", "Mpir.FftX.ifft_trunc_recovers",
             "Mpir.FftX.fft_trunc_sqrt2_prefix", "Mpir.FftX.fft_full_sqrt2_bitrev_dft", "Mpir.FftX.ifft_trunc_sqrt2_recovers",
-            "Mpir.FftX.fft_radix2_twiddle_bitrev_dft", "Mpir.FftX.mfa_passes_partial",
+            "Mpir.FftX.fft_radix2_twiddle_bitrev_dft", "Mpir.FftX.fft_trunc1_twiddle_prefix", "Mpir.FftX.mfa_passes_partial",
             "Mpir.FftX.convolution_chain", "Mpir.FftX.mul_trunc_sqrt2_val", "Mpir.FftX.mul_fft_main_nonmfa_val"]
 PINS = [("fft/fft_radix2.c", "mpir_fft_radix2"), ("fft/ifft_radix2.c", "mpir_ifft_radix2"),
         ("fft/fft_trunc.c", None), ("fft/ifft_trunc.c", None),
